@@ -1,5 +1,5 @@
 CONSTANTS
-  LieHeights = {2, 5}
+  LieHeights = {5}
   WithCoherent = TRUE
   CaseKinds = {"Block", "BlockByHash", "Tx", "ABCIQuery", "BlockResults", "ConsensusParams", "BlockchainInfo", "Commit", "Validators"}
   Weak_NoTrustedHashCompare = FALSE
@@ -16,5 +16,5 @@ CONSTANTS
   Weak_ValsNotHashed = FALSE
 INIT CaseInit
 NEXT CaseNext
-INVARIANTS RelaySound RelayComplete UncommittedOnly ExtraSound
+INVARIANTS AllProps
 CHECK_DEADLOCK FALSE
